@@ -2,6 +2,7 @@
    pysmt/walkers/generic.py gives the default handler of a node type ("walk_" + lower-cased operator name). *)
 From Coq Require Import List Bool String Ascii Arith.
 From PySMT.gen Require Import Operators.
+From PySMT.proofs Require Import Operators_proofs.
 Import ListNotations.
 Open Scope string_scope.
 
@@ -17,3 +18,18 @@ Definition default_handler (n : node_type) : string := "walk_" ++ lower (nt_name
 
 Example default_handler_ex : default_handler NT_BV_TONATURAL = "walk_bv_tonatural".
 Proof. vm_compute. reflexivity. Qed.
+
+(* two tables over the node types are equal when one evaluation over the finite list says so *)
+Lemma by_table (f g : node_type -> string) :
+  forallb (fun n => String.eqb (f n) (g n)) all_node_types = true -> forall n, f n = g n.
+Proof.
+  intros H n. rewrite forallb_forall in H. apply String.eqb_eq, H, all_node_types_complete.
+Qed.
+Definition ostr_eqb (a b : option string) : bool :=
+  match a, b with Some x, Some y => String.eqb x y | None, None => true | _, _ => false end.
+Lemma by_table_opt (f g : node_type -> option string) :
+  forallb (fun n => ostr_eqb (f n) (g n)) all_node_types = true -> forall n, f n = g n.
+Proof.
+  intros H n. rewrite forallb_forall in H. specialize (H n (all_node_types_complete n)).
+  destruct (f n), (g n); cbn in H; try discriminate H; try reflexivity. f_equal. now apply String.eqb_eq.
+Qed.
